@@ -25,8 +25,19 @@ def build_worker(verbose=True):
     the path dependency).  Failure to build is inconclusive, never a violation."""
     env = dict(os.environ, CARGO_NET_OFFLINE="true")
     t0 = time.time()
-    p = subprocess.run(["cargo", "build", "--release", "--offline", "-q"], cwd=HARNESS, env=env,
-                       stdout=subprocess.PIPE, stderr=subprocess.STDOUT, text=True)
+    lock = None
+    if os.environ.get("PV_LOCK_REPO"):
+        # development aid (background runs next to tools/seedtest.py, which patches /repo temporarily):
+        # build only while no seeded change is applied.  Not used by the registered commands.
+        import fcntl
+        lock = open("/tmp/pv_repo.lock", "w")
+        fcntl.flock(lock, fcntl.LOCK_EX)
+    try:
+        p = subprocess.run(["cargo", "build", "--release", "--offline", "-q"], cwd=HARNESS, env=env,
+                           stdout=subprocess.PIPE, stderr=subprocess.STDOUT, text=True)
+    finally:
+        if lock:
+            lock.close()
     if p.returncode != 0:
         sys.stderr.write(p.stdout[-4000:])
         raise Inconclusive("worker build failed")
